@@ -102,6 +102,21 @@ def make_limited(limit):
         return x
     return limited, set_limit
 
+def make_defaulted(limit):
+    # one code object, one function object per call: the default value belongs to the function object
+    @icontract.require(lambda x, limit=limit: x < limit)
+    def defaulted(x):
+        return x
+    return defaulted
+
+def make_defaulted_named(limit):
+    def below(x, limit=limit):
+        return x < limit
+    @icontract.ensure(below)
+    def defaulted(x):
+        return x
+    return defaulted
+
 class Ledger:
     def __init__(self, entries):
         self.entries = entries
@@ -327,6 +342,18 @@ def main():
     if m_after != m_fresh:
         local.append({"symptom": "message_depends_on_earlier_violation", "scenario": "closure_rebinding",
                       "detail": "after an earlier violation with limit=10 the message for limit=1 is {!r}; in a fresh history it is {!r}".format(m_after, m_fresh)})
+    # history independence: sibling contracts made from one lambda (one code object) with different default values
+    for maker in ("make_defaulted", "make_defaulted_named"):
+        for first, second in ((10, 20), (20, 10), (10, 10)):
+            g1, g2 = ns[maker](first), ns[maker](second)
+            m1 = violation_message(g1, 50)
+            m2 = violation_message(g2, 50)
+            m2_fresh = violation_message(ns[maker](second), 50)
+            out["{}:{}:{}".format(maker, first, second)] = m2
+            if m2 != m2_fresh or (maker == "make_defaulted" and not has_line(m2, "limit was {}".format(second))):
+                local.append({"symptom": "message_depends_on_earlier_violation", "scenario": "sibling_defaults",
+                              "detail": "{}: after a violation of the sibling with limit={} the message for limit={} is {!r}; in a fresh history {!r}".format(
+                                  maker, first, second, m2, m2_fresh)})
     # expression texts spanning lines: sorted by expression text, not by rendered line
     msg = violation_message(ns["s_multiline_chain"], ns["Ledger"]([0, 7]))
     out["multiline_chain"] = msg
